@@ -25,6 +25,9 @@ class LineStage:
             return core.build_rs(self.features)
         if self.impl == "c":
             return core.build_c()
+        if self.impl == "c_ci":
+            ok, exe, log = core.build_c()
+            return ok, exe + "_ci", log
         if self.impl == "b3sum":
             return core.build_b3sum()
         raise core.InternalError(f"unknown impl {self.impl}")
